@@ -182,6 +182,12 @@ def run(ctx):
 
     # ---- ROLE-6
     check_role6(rep, prog)
+    # ---- ROLE-7
+    rep.rule("ROLE-7", "start_bmca/end_bmca carry port_state, filter, clock, config and BMCA state over unchanged "
+                       "(shared with C10 TX-7)", floor=2)
+    fc.check_lifecycle_transfer(rep, prog, "ROLE-7", fields={"port_state", "filter", "filter_config", "clock", "config",
+                                                             "instance_state", "bmca", "multiport_disable"},
+                                check_pending=False)
 
 
 def check_role6(rep, prog):
